@@ -35,6 +35,20 @@ theorem M.bind_ok {α β} (x : M α) (f : α → M β) (s : Ctx) (r : β × Ctx)
     · intro h; exact ⟨a, s1, ⟨rfl, rfl⟩, h⟩
     · rintro ⟨_, _, ⟨rfl, rfl⟩, h⟩; exact h
 
+theorem M.map_ok {α β} (f : α → β) (x : M α) (s : Ctx) (r : β × Ctx) :
+    (f <$> x) s = .ok r ↔ ∃ a s1, x s = .ok (a, s1) ∧ r = (f a, s1) := by
+  show (StateT.map f x) s = .ok r ↔ _
+  unfold StateT.map
+  simp only [bind, Except.bind, pure, Except.pure]
+  cases x s with
+  | error e => simp
+  | ok p =>
+    obtain ⟨a, s1⟩ := p
+    simp only [Except.ok.injEq, Prod.mk.injEq]
+    constructor
+    · intro h; exact ⟨a, s1, ⟨rfl, rfl⟩, h.symm⟩
+    · rintro ⟨_, _, ⟨rfl, rfl⟩, h⟩; exact h.symm
+
 @[simp] theorem M.pure_ok {α} (a : α) (s : Ctx) (r : α × Ctx) :
     (pure a : M α) s = .ok r ↔ r = (a, s) := by
   show Except.ok (a, s) = Except.ok r ↔ _
@@ -504,16 +518,17 @@ macro_rules | `(tactic| wt_close) => `(tactic| first
   | done
   | trivial
   | assumption
-  | (constructor <;> wt_close))
+  | (with_reducible refine And.intro ?_ ?_ <;> wt_close))
 
 /-- a leaf: the accumulated facts imply the postcondition -/
 macro "spec_leaf" : tactic => `(tactic|
   (try simp only [and_imp]
-   intros
-   subst_vars
-   try simp only [optWT_some, optWT_none, listWT_nil, and_true, true_and,
-     forall_const, imp_self] at *
-   wt_close))
+   all_goals
+    (intros
+     subst_vars
+     try simp only [optWT_some, optWT_none, listWT_nil, and_true, true_and,
+       forall_const, imp_self] at *
+     wt_close)))
 
 /-- use a specification: directly, or weakened to the postcondition at hand -/
 syntax "spec_use " term : tactic
@@ -594,10 +609,16 @@ theorem Spec.negativeFloatNumberToAsgType (fmt : Option String) :
 macro_rules | `(tactic| spec_lemma) => `(tactic| (spec_head Sema.negativeFloatNumberToAsgType; spec_use (Spec.negativeFloatNumberToAsgType _)))
 
 macro_rules | `(tactic| wt_close) => `(tactic| exact wt_literal rfl)
-macro_rules | `(tactic| wt_close) => `(tactic| first
+theorem optListWT_some {ps : List TExpr} (h : ListWT S ps) : OptListWT S (some ps) := h
+theorem optListWT_none : OptListWT S none := trivial
+theorem listWT_nil' : ListWT S [] := by intro x h; cases h
+
+macro_rules | `(tactic| wt_close) => `(tactic| with_reducible first
   | exact wt_hardwareQubit _
   | exact wt_gateOperand_hw _
   | exact ixsWT_nil
+  | exact listWT_nil'
+  | exact optListWT_none
   | (apply wt_newTexprWithCast <;> wt_close)
   | (apply wt_castToTexpr <;> wt_close)
   | (apply wt_minus <;> wt_close)
@@ -614,9 +635,8 @@ macro_rules | `(tactic| wt_close) => `(tactic| first
   | (apply iiWT_mk <;> wt_close)
   | (apply ixsWT_cons <;> wt_close)
   | (apply listWT_cons' <;> wt_close)
+  | (apply optListWT_some <;> wt_close)
   | (apply WT.identifier <;> wt_close))
-
-theorem Spec.unitCheck_template : True := trivial
 
 theorem Spec.literalToAsgTexpr (l : Ast.Literal) : Spec S (literalToAsgTexpr l) (OptWT S) := by
   unfold Sema.literalToAsgTexpr; spec
@@ -823,5 +843,403 @@ theorem allSpec (fuel : Nat) : AllSpec S fuel := by
     · intros; exact exprsLoop_step fuel ih _
     · intros; exact indexedIdentifierToAsgType_step fuel ih _
     · intros; exact indexOperatorsLoop_step fuel ih _
+
+/-- **C08, typing.**  Every expression returned by `expr_to_asg_texpr` — any fuel, any context —
+is well typed, deeply, relative to every symbol vector that extends the final one (symbol ids are
+stable: the vector only grows, first component). -/
+theorem well_typed (fuel : Nat) (e : Option Ast.Expr) (c c' : Ctx) (t : TExpr)
+    (h : (exprToAsgTexpr fuel e).run c = .ok (some t, c')) :
+    c.symbolTable.all <+: c'.symbolTable.all ∧
+      ∀ S, c'.symbolTable.all <+: S → WT S t := by
+  refine ⟨((allSpec (S := []) fuel).exprToAsgTexpr e).run c _ c' h |>.1, fun S hS => ?_⟩
+  exact (((allSpec (S := S) fuel).exprToAsgTexpr e).run c _ c' h).2 hS
+
+/-- in particular relative to the symbol table at the moment the expression has been analysed -/
+theorem well_typed_final (fuel : Nat) (e : Option Ast.Expr) (c c' : Ctx) (t : TExpr)
+    (h : (exprToAsgTexpr fuel e).run c = .ok (some t, c')) : WT c'.symbolTable.all t :=
+  (well_typed fuel e c c' t h).2 _ (List.prefix_refl _)
+
+/-- the same for the other expression-producing functions of the pass -/
+theorem well_typed_gate_operand (fuel : Nat) (g : Ast.GateOperand) (c c' : Ctx) (t : TExpr)
+    (h : (gateOperandToAsgTexpr fuel g).run c = .ok (t, c')) : WT c'.symbolTable.all t :=
+  (((allSpec fuel).gateOperandToAsgTexpr g).run c _ c' h).2 (List.prefix_refl _)
+
+theorem well_typed_expression_list (fuel : Nat) (el : Ast.ExpressionList) (c c' : Ctx)
+    (ts : List TExpr) (h : (expressionListToAsgTexpr fuel el).run c = .ok (ts, c')) :
+    ∀ t, t ∈ ts → WT c'.symbolTable.all t :=
+  (((allSpec fuel).expressionListToAsgTexpr el).run c _ c' h).2 (List.prefix_refl _)
+
+/-- `**` never reaches the graph as `PowerOp`: `binary_op_to_asg_type` maps it to concatenation
+(finding F08); consequently no `WT` rule for `powerOp` is needed -/
+theorem power_is_concatenation (c : Ctx) :
+    (binaryOpToAsgType .powerOp).run c = .ok (.concatenationOp, c) := rfl
+
+/-- read-outs of `WT`: the statements of the property, one by one -/
+theorem wt_identifier_type {S : List Sym} {id : Nat} {t : T} (h : WT S (.mk (.identifier (.ok id)) t)) :
+    ∃ name, S[id]? = some ⟨name, t⟩ := by
+  cases h with | identifier h => exact h
+
+theorem wt_literal_type {S : List Sym} {l : Literal} {t : T} (h : WT S (.mk (.literal l) t)) :
+    literalType l = some t := by
+  cases h with | literal h => exact h
+
+theorem wt_cast_type {S : List Sym} {e : TExpr} {ty t : T} (h : WT S (.mk (.cast e ty) t)) :
+    t = ty ∧ WT S e := by
+  cases h with | cast h => exact ⟨rfl, h⟩
+
+theorem wt_measure_type {S : List Sym} {e : TExpr} {t : T} (h : WT S (.mk (.measureExpression e) t)) :
+    t = measureShape e.getType ∧ WT S e := by
+  cases h with | measure h => exact ⟨rfl, h⟩
+
+theorem wt_arith_type {S : List Sym} {op : ArithOp} {l r : TExpr} {t : T}
+    (h : WT S (.mk (.binaryExpr (.arithOp op) l r) t)) :
+    ∃ l0 r0, WT S l0 ∧ WT S r0 ∧ t = implicitCastType op l0.getType r0.getType ∧
+      Operand l0 t l ∧ Operand r0 t r := by
+  cases h with | arith h1 h2 h3 h4 => exact ⟨_, _, h1, h2, rfl, h3, h4⟩
+
+/-- each operand of an arithmetic node has the node's type -/
+theorem wt_arith_operand_types {S : List Sym} {op : ArithOp} {l r : TExpr} {t : T}
+    (h : WT S (.mk (.binaryExpr (.arithOp op) l r) t)) : l.getType = t ∧ r.getType = t := by
+  obtain ⟨l0, r0, -, -, -, hl, hr⟩ := wt_arith_type h
+  constructor
+  · rcases hl with ⟨rfl, h⟩ | ⟨rfl, -⟩
+    · exact h
+    · rfl
+  · rcases hr with ⟨rfl, h⟩ | ⟨rfl, -⟩
+    · exact h
+    · rfl
+
+/-! ## Part 2 — the declaration and assignment decisions -/
+
+/-- the diagnostic `kind` was logged, last, at `span` -/
+def LoggedLast (k : SemanticErrorKind) (span : Ast.Span) (c : Ctx) : Prop :=
+  ∃ pre, c.semanticErrors = pre ++ [⟨k, span.start, span.stop⟩]
+
+/-- the value `v` stored for a target of type `target`, computed from the analysed value `orig`:
+its type equals the target up to const-ness, or it is an explicit cast of `orig` to exactly the
+target type -/
+def Accepted (target : T) (orig v : TExpr) : Prop :=
+  (v = orig ∧ equalUpToConstness target orig.getType = true) ∨ v = castToTexpr orig target
+
+def isLiteralExpr : TExpr → Bool
+  | .mk (.literal _) _ => true
+  | _ => false
+
+/-- **guard (F18a/F18b).**  The region in which `classical_declaration_statement_to_asg_stmt`
+stores the initializer unchanged and logs nothing although its type differs from the declared type:
+a non-literal initializer whose promotion with the declared type is neither the declared type
+(up to const), nor `Void`, nor the initializer's own type. -/
+def kfDeclSilent (lhs : T) (init : TExpr) : Bool :=
+  !equalUpToConstness lhs init.getType && !isLiteralExpr init &&
+  !equalUpToConstness (promoteTypesNotEqual lhs init.getType) lhs &&
+  !(decide (promoteTypesNotEqual lhs init.getType = T.void)) &&
+  !(decide (promoteTypesNotEqual lhs init.getType = init.getType))
+
+set_option maxHeartbeats 4000000 in
+/-- **the silent region, characterised**: a non-literal initializer of the SAME numeric kind
+(`int`/`uint`/`float`) as the target, whose type is const while the target is not, and which is wider
+than the target (or has no width): `const int n = 3; int[8] y = n;`, `int[8] y = 1+2;`.
+For a non-const value the decision is never silent. -/
+theorem kfDeclSilent_region (lhs : T) (init : TExpr) (h : kfDeclSilent lhs init = true) :
+    isLiteralExpr init = false ∧ tag lhs = tag init.getType ∧
+    (tag lhs = .int ∨ tag lhs = .uint ∨ tag lhs = .float) ∧
+    isConst lhs = false ∧ isConst init.getType = true ∧
+    ∃ a, width lhs = some a ∧ ∀ b, width init.getType = some b → a < b := by
+  simp only [kfDeclSilent, Bool.and_eq_true, Bool.not_eq_true', decide_eq_false_iff_not] at h
+  obtain ⟨⟨⟨⟨h1, h2⟩, h3⟩, h4⟩, h5⟩ := h
+  refine ⟨h2, ?_⟩
+  generalize init.getType = it at *
+  clear h2
+  by_cases hw : promoteTypeWidth lhs it = T.void
+  · -- cross-kind promotion returns one of the operands verbatim
+    exfalso
+    simp only [promoteTypesNotEqual, hw, ne_eq, not_true_eq_false, if_false] at h3 h4 h5
+    unfold promoteBaseType at h3 h4 h5
+    split at h3 <;> simp_all [equalUpToConstness]
+  · obtain ⟨ht, -, htow, -⟩ := C20.promoteTypeWidth_tag hw
+    simp only [promoteTypesNotEqual, hw, ne_eq, not_false_eq_true, if_true] at h3 h4 h5
+    clear htow ht h4
+    unfold promoteTypeWidth at hw h3 h5
+    split at hw
+    all_goals first
+      | (exact absurd rfl hw)
+      | (rename_i hl hi
+         cases lhs <;> simp only [tag, reduceCtorEq] at hl
+         cases it <;> simp only [tag, reduceCtorEq] at hi
+         rename_i wl cl wi ci
+         simp only [hl, hi] at h3 h5
+         cases wl <;> cases wi <;> cases cl <;> cases ci <;>
+           simp_all [equalUpToConstness, promoteWidth, promoteConstness, width, isConst, tag] <;>
+           omega)
+
+theorem declareClassicalHelper_ok (sym : SymbolIdResult) (v : Option TExpr) (c c' : Ctx) (s : Stmt)
+    (h : declareClassicalHelper sym v c = .ok (s, c')) :
+    s = .declareClassical sym v ∧ c'.semanticErrors = c.semanticErrors := by
+  unfold declareClassicalHelper at h
+  cases v with
+  | none =>
+    simp only [M.pure_bind_ok, M.pure_ok, Prod.mk.injEq] at h
+    exact ⟨h.1, by rw [h.2]⟩
+  | some init =>
+    simp only at h
+    split at h
+    · cases sym with
+      | error e => simp [M.map_ok] at h
+      | ok id =>
+        simp only [insertConstValue, M.modify_bind_ok, M.pure_ok, Prod.mk.injEq] at h
+        exact ⟨h.1, by rw [h.2]⟩
+    · simp only [M.pure_bind_ok, M.pure_ok, Prod.mk.injEq] at h
+      exact ⟨h.1, by rw [h.2]⟩
+
+theorem insertError_ok (k : SemanticErrorKind) (sp : Ast.Span) (c c' : Ctx) (u : Unit)
+    (h : insertError k sp c = .ok (u, c')) :
+    c' = { c with semanticErrors := c.semanticErrors ++ [⟨k, sp.start, sp.stop⟩] } := by
+  simp only [Sema.insertError, M.modify_ok, Prod.mk.injEq] at h
+  exact h.2
+
+/-- **C08, declaration decision.**  For a (non-array) classical declaration with an initializer
+that analyses to `init`: the stored initializer is `init` itself with a type equal to the declared
+type up to const-ness, or `Cast(init, declared type)`, or `IncompatibleTypesError` is the last
+diagnostic logged, at the declaration — outside the guard `kfDeclSilent`. -/
+theorem decl_decision_partial (fuel : Nat) (span : Ast.Span) (st : Ast.ScalarType) (constToken : Bool)
+    (name : Ast.Name) (expr : Option Ast.Expr) (c c' : Ctx) (stmt : Stmt)
+    (h : (classicalDeclarationStatementToAsgStmt (fuel + 1) span false (some st) constToken
+      (some name) expr).run c = .ok (stmt, c')) :
+    ∃ lhsType c1 init c2 sym,
+      (scalarTypeToType st constToken).run c = .ok (lhsType, c1) ∧
+      (exprToAsgTexpr fuel expr).run c1 = .ok (init, c2) ∧
+      match init with
+      | none => stmt = .declareClassical sym none
+      | some init => ∃ v, stmt = .declareClassical sym (some v) ∧
+          (kfDeclSilent lhsType init = false →
+            Accepted lhsType init v ∨
+              (v = init ∧ LoggedLast .incompatibleTypesError span c')) := by
+  simp only [StateT.run, classicalDeclarationStatementToAsgStmt, Bool.false_eq_true, if_false,
+    unwrap, M.bind_ok, M.pure_ok, Prod.mk.injEq, exists2_eq] at h
+  obtain ⟨lhsType, c1, h1, init, c2, h2, sym, c3, h3, h4⟩ := h
+  refine ⟨lhsType, c1, init, c2, sym, h1, h2, ?_⟩
+  cases init with
+  | none =>
+    simp only at h4
+    exact (declareClassicalHelper_ok _ _ _ _ _ h4).1
+  | some init =>
+    simp only at h4 ⊢
+    by_cases he : equalUpToConstness lhsType init.getType = true
+    · rw [if_pos he] at h4
+      simp only [M.pure_ok, Prod.mk.injEq] at h4
+      exact ⟨init, h4.1, fun _ => .inl (.inl ⟨rfl, he⟩)⟩
+    · rw [if_neg he] at h4
+      have castCase : ∀ {cX : Ctx}, declareClassicalHelper sym (some (castToTexpr init lhsType)) cX =
+          .ok (stmt, c') → ∃ v, stmt = .declareClassical sym (some v) ∧
+            (kfDeclSilent lhsType init = false → Accepted lhsType init v ∨
+              (v = init ∧ LoggedLast .incompatibleTypesError span c')) := by
+        intro cX hh
+        exact ⟨_, (declareClassicalHelper_ok _ _ _ _ _ hh).1, fun _ => .inl (.inr rfl)⟩
+      have errCase : ∀ {cX : Ctx}, (do insertError .incompatibleTypesError span
+                                       declareClassicalHelper sym (some init)) cX =
+          .ok (stmt, c') → ∃ v, stmt = .declareClassical sym (some v) ∧
+            (kfDeclSilent lhsType init = false → Accepted lhsType init v ∨
+              (v = init ∧ LoggedLast .incompatibleTypesError span c')) := by
+        intro cX hh
+        simp only [M.bind_ok] at hh
+        obtain ⟨u, cY, e1, e2⟩ := hh
+        have := insertError_ok _ _ _ _ _ e1
+        obtain ⟨hs, herr⟩ := declareClassicalHelper_ok _ _ _ _ _ e2
+        refine ⟨_, hs, fun _ => .inr ⟨rfl, ⟨cX.semanticErrors, ?_⟩⟩⟩
+        rw [herr, this]
+      have otherCase : isLiteralExpr init = false →
+          (if equalUpToConstness (promoteTypesNotEqual lhsType init.getType) lhsType = true then
+              declareClassicalHelper sym (some (castToTexpr init lhsType))
+            else
+              if (decide (promoteTypesNotEqual lhsType init.getType = T.void) ||
+                  decide (promoteTypesNotEqual lhsType init.getType = init.getType)) = true then do
+                insertError SemanticErrorKind.incompatibleTypesError span
+                declareClassicalHelper sym (some init)
+              else declareClassicalHelper sym (some init)) c3 = .ok (stmt, c') →
+          ∃ v, stmt = .declareClassical sym (some v) ∧
+            (kfDeclSilent lhsType init = false → Accepted lhsType init v ∨
+              (v = init ∧ LoggedLast .incompatibleTypesError span c')) := by
+        intro hnotlit hh
+        by_cases hpe : equalUpToConstness (promoteTypesNotEqual lhsType init.getType) lhsType = true
+        · rw [if_pos hpe] at hh; exact castCase hh
+        · rw [if_neg hpe] at hh
+          by_cases hsil : (decide (promoteTypesNotEqual lhsType init.getType = T.void) ||
+                  decide (promoteTypesNotEqual lhsType init.getType = init.getType)) = true
+          · rw [if_pos hsil] at hh; exact errCase hh
+          · rw [if_neg hsil] at hh
+            refine ⟨_, (declareClassicalHelper_ok _ _ _ _ _ hh).1, fun hk => ?_⟩
+            exfalso
+            simp only [Bool.or_eq_true, decide_eq_true_eq, not_or] at hsil
+            simp [kfDeclSilent, he, hnotlit, hpe, hsil.1, hsil.2] at hk
+      obtain ⟨e, t⟩ := init
+      cases e with
+      | literal lit =>
+        simp only [TExpr.expression] at h4
+        by_cases hc : Sema.canCastLiteral lhsType (TExpr.mk (.literal lit) t).getType lit = true
+        · rw [if_pos hc] at h4; exact castCase h4
+        · rw [if_neg hc] at h4; exact errCase h4
+      | _ => exact otherCase rfl h4
+
+/-! ### assignments -/
+
+def isIntLiteralExpr : TExpr → Bool
+  | .mk (.literal (.int _ _)) _ => true
+  | _ => false
+
+/-- **guard (F18d).**  `assignment_stmt_to_asg_stmt` stores an integer literal unchanged and logs
+nothing for EVERY target type other than `uint` (`duration d; d = 1;`, `bool b; b = 1;`,
+`float f; f = 1;`, `int x; x = 1;` …) -/
+def kfAssignIntLiteral (symT : T) (expr : TExpr) : Bool :=
+  isIntLiteralExpr expr && (tag symT != .uint) && (expr.getType != symT) &&
+  !equalUpToDims expr.getType symT
+
+/-- `k` is the first diagnostic logged after `c0` -/
+def LoggedFirstSince (c0 : Ctx) (k : SemanticErrorKind) (span : Ast.Span) (c : Ctx) : Prop :=
+  ∃ post, c.semanticErrors = c0.semanticErrors ++ ⟨k, span.start, span.stop⟩ :: post
+
+theorem mutateConstCheck_ok (ok : Bool) (t : T) (sp : Ast.Span) (c c' : Ctx) (u : Unit)
+    (h : mutateConstCheck ok t sp c = .ok (u, c')) :
+    ∃ post, c'.semanticErrors = c.semanticErrors ++ post := by
+  unfold mutateConstCheck at h
+  split at h
+  · exact ⟨_, by rw [insertError_ok _ _ _ _ _ h]⟩
+  · simp only [M.pure_ok, Prod.mk.injEq] at h
+    exact ⟨[], by rw [h.2]; simp⟩
+
+theorem lookupSymbol_errors (name : String) (sp : Ast.Span) (c c' : Ctx) (r : SymbolIdResult × T)
+    (h : lookupSymbol name sp c = .ok (r, c')) (hok : r.1.isOk = true) :
+    c'.semanticErrors = c.semanticErrors := by
+  simp only [lookupSymbol, M.bind_ok] at h
+  obtain ⟨r0, c1, h1, h2⟩ := h
+  have hc1 : c1.semanticErrors = c.semanticErrors := by
+    simp only [tableLookup, M.bind_ok] at h1
+    obtain ⟨o, c2, h3, h4⟩ := h1
+    obtain ⟨-, rfl⟩ := symStep_ok _ _ _ _ _ h3
+    cases o <;> simp at h4 <;> (try (obtain ⟨-, rfl⟩ := h4)) <;> rfl
+  by_cases hr : r0.1.isOk = true
+  · simp only [hr, Bool.not_true, Bool.false_eq_true, if_false, M.pure_ok, Prod.mk.injEq] at h2
+    rw [h2.2, hc1]
+  · simp only [hr, Bool.not_false, if_true, M.bind_ok, M.pure_ok, Prod.mk.injEq] at h2
+    obtain ⟨u, c2, -, h5, -⟩ := h2
+    rw [← h5] at hr
+    exact absurd hok hr
+
+theorem assign_tail_ok (w : TExpr) (ok : Bool) (symT : T) (span : Ast.Span) (sym : SymbolIdResult)
+    (cX c' : Ctx) (stmt : Option Stmt)
+    (h : (do let expr ← (pure w : M TExpr)
+             mutateConstCheck ok symT span
+             pure (some (Stmt.assignment (LValue.identifier sym) expr))) cX = .ok (stmt, c')) :
+    stmt = some (.assignment (.identifier sym) w) ∧
+      ∃ post, c'.semanticErrors = cX.semanticErrors ++ post := by
+  rw [M.pure_bind_ok, M.bind_ok] at h
+  obtain ⟨u, c1, h1, h2⟩ := h
+  simp only [M.pure_ok, Prod.mk.injEq] at h2
+  obtain ⟨rfl, rfl⟩ := h2
+  exact ⟨rfl, mutateConstCheck_ok _ _ _ _ _ _ h1⟩
+
+theorem assign_err_tail_ok (k : SemanticErrorKind) (w : TExpr) (ok : Bool) (symT : T)
+    (span : Ast.Span) (sym : SymbolIdResult) (cX c' : Ctx) (stmt : Option Stmt)
+    (h : (do insertError k span
+             let expr ← (pure w : M TExpr)
+             mutateConstCheck ok symT span
+             pure (some (Stmt.assignment (LValue.identifier sym) expr))) cX = .ok (stmt, c')) :
+    stmt = some (.assignment (.identifier sym) w) ∧ LoggedFirstSince cX k span c' := by
+  rw [M.bind_ok] at h
+  obtain ⟨u, c1, h1, h2⟩ := h
+  obtain ⟨hs, post, hp⟩ := assign_tail_ok _ _ _ _ _ _ _ _ h2
+  refine ⟨hs, post, ?_⟩
+  rw [hp, insertError_ok _ _ _ _ _ h1]
+  simp
+
+/-- **C08, assignment decision.**  For `name = rhs;` where `rhs` analyses to `expr` and `name`
+resolves to a symbol of type `symT`: the stored value is `expr` itself of exactly the symbol's type,
+or `Cast(expr, symT)`, or one of `IncompatibleDimensionError` / `CastError` /
+`IncompatibleTypesError` is the first diagnostic logged after both sides were evaluated, at the
+assignment — outside the guard `kfAssignIntLiteral`. -/
+theorem assign_decision_partial (fuel : Nat) (span : Ast.Span) (name : Ast.Identifier)
+    (rhs : Option Ast.Expr) (ii : Option Ast.IndexedIdentifier) (c c' : Ctx) (stmt : Option Stmt)
+    (h : (assignmentStmtToAsgStmt (fuel + 1) span (some name) rhs ii).run c = .ok (stmt, c')) :
+    ∃ expr c1 sym symT c2,
+      (exprToAsgTexpr fuel rhs).run c = .ok (some expr, c1) ∧
+      (lookupSymbol name.text name.span).run c1 = .ok ((sym, symT), c2) ∧
+      (sym.isOk = true → kfAssignIntLiteral symT expr = false →
+        ∃ v, stmt = some (.assignment (.identifier sym) v) ∧
+        ((v = expr ∧ expr.getType = symT) ∨ v = castToTexpr expr symT ∨
+        (v = expr ∧ ∃ k, (k = .incompatibleDimensionError ∨ k = .castError ∨
+            k = .incompatibleTypesError) ∧ LoggedFirstSince c2 k span c'))) := by
+  simp only [StateT.run, assignmentStmtToAsgStmt, M.bind_ok] at h
+  obtain ⟨e0, c1, h1, expr, c1', h2, ⟨sym, symT⟩, c2, h3, h4⟩ := h
+  obtain ⟨he0, hc1'⟩ := (M.unwrap_ok _ _ _ _).mp h2
+  simp only at he0 hc1' h4
+  subst hc1' he0
+  refine ⟨expr, c1', sym, symT, c2, h1, h3, fun hok hk => ?_⟩
+  -- the ways a branch ends
+  have direct : ∀ w, (do let expr ← (pure w : M TExpr)
+                         mutateConstCheck sym.isOk symT span
+                         pure (some (Stmt.assignment (LValue.identifier sym) expr))) c2 = .ok (stmt, c') →
+      stmt = some (.assignment (.identifier sym) w) :=
+    fun w hh => (assign_tail_ok _ _ _ _ _ _ _ _ hh).1
+  have logged : ∀ k, (k = .incompatibleDimensionError ∨ k = .castError ∨ k = .incompatibleTypesError) →
+      (do insertError k span
+          let expr ← (pure expr : M TExpr)
+          mutateConstCheck sym.isOk symT span
+          pure (some (Stmt.assignment (LValue.identifier sym) expr))) c2 = .ok (stmt, c') →
+      ∃ v, stmt = some (.assignment (.identifier sym) v) ∧
+        ((v = expr ∧ expr.getType = symT) ∨ v = castToTexpr expr symT ∨
+        (v = expr ∧ ∃ k, (k = .incompatibleDimensionError ∨ k = .castError ∨
+            k = .incompatibleTypesError) ∧ LoggedFirstSince c2 k span c')) := by
+    intro k hk hh
+    obtain ⟨hs, hl⟩ := assign_err_tail_ok _ _ _ _ _ _ _ _ _ hh
+    exact ⟨expr, hs, .inr (.inr ⟨rfl, k, hk, hl⟩)⟩
+  rw [show (sym.isOk && expr.getType != symT) = (expr.getType != symT) by rw [hok, Bool.true_and]] at h4
+  by_cases hne : (expr.getType != symT) = true
+  · rw [if_pos hne] at h4
+    by_cases hd : equalUpToDims expr.getType symT = true
+    · rw [if_pos hd] at h4
+      exact logged _ (.inl rfl) h4
+    · rw [if_neg hd] at h4
+      have general : (if promoteTypes symT expr.getType = symT then do
+              let expr ← (pure (castToTexpr expr (promoteTypes symT expr.getType)) : M TExpr)
+              mutateConstCheck sym.isOk symT span
+              pure (some (Stmt.assignment (LValue.identifier sym) expr))
+            else do
+              insertError .incompatibleTypesError span
+              let expr ← (pure expr : M TExpr)
+              mutateConstCheck sym.isOk symT span
+              pure (some (Stmt.assignment (LValue.identifier sym) expr))) c2 = .ok (stmt, c') →
+          ∃ v, stmt = some (.assignment (.identifier sym) v) ∧
+            ((v = expr ∧ expr.getType = symT) ∨ v = castToTexpr expr symT ∨
+            (v = expr ∧ ∃ k, (k = .incompatibleDimensionError ∨ k = .castError ∨
+                k = .incompatibleTypesError) ∧ LoggedFirstSince c2 k span c')) := by
+        intro hh
+        by_cases hp : promoteTypes symT expr.getType = symT
+        · rw [if_pos hp, hp] at hh
+          exact ⟨_, direct _ hh, .inr (.inl rfl)⟩
+        · rw [if_neg hp] at hh
+          exact logged _ (.inr (.inr rfl)) hh
+      obtain ⟨e, t⟩ := expr
+      cases e with
+      | literal lit =>
+        cases lit with
+        | int value sign =>
+          simp only [TExpr.expression] at h4
+          cases symT with
+          | uint w cst =>
+            simp only at h4
+            cases sign with
+            | true =>
+              simp only [if_true] at h4
+              exact ⟨_, direct _ h4, .inr (.inl rfl)⟩
+            | false =>
+              simp only [Bool.false_eq_true, if_false] at h4
+              exact logged _ (.inr (.inl rfl)) h4
+          | _ =>
+            exfalso
+            simp [kfAssignIntLiteral, isIntLiteralExpr, tag, hne, hd] at hk
+        | _ => exact general h4
+      | _ => exact general h4
+  · rw [if_neg hne] at h4
+    simp only [bne_iff_ne, ne_eq, Decidable.not_not] at hne
+    exact ⟨_, direct _ h4, .inl ⟨rfl, hne⟩⟩
 
 end Oq3.Props.C08
